@@ -77,9 +77,9 @@ def julianday_modified(at: datetime.datetime) -> float:
         year -= 1
 
     if a <= 15821004.1:
-        b = -2 + (year + 4716) / 4 - 1179
+        b = -2 + (year + 4716) // 4 - 1179
     else:
-        b = (year / 400) - (year / 100) + (year / 4)
+        b = (year // 400) - (year // 100) + (year // 4)
 
     a = 365 * year - 679004
     mjd = a + b + int(30.6001 * (month + 1)) + day + at.hour / 24
